@@ -8,6 +8,7 @@ INVARIANT EmitIffTwo
 INVARIANT MinIndBoundary
 INVARIANT ZeroIsVacuous
 INVARIANT MeanFreqSumsToOne
+INVARIANT PositionLocal
 CONSTRAINT Dump
 CONSTRAINT DumpTh
 CHECK_DEADLOCK FALSE
